@@ -83,6 +83,14 @@ def monitor(strategy, hook, ev):
             exp_all = ctx['expect_1m'][sym]
             n = len(one)
             c('stored_1m_checks')
+            # one stored row per minute that has started by the simulated clock (the strategy's own symbol: during the matching
+            # of a minute / chunk the other symbols may be a few minutes behind or ahead)
+            if sym == strategy.symbol and len(exp_all):
+                exp_n = int(-(-(store.app.time - exp_all[0][0]) // 60000))
+                c('stored_1m_count_checks')
+                if n != min(exp_n, len(exp_all)):
+                    v('stored_1m_count_differs_from_clock',
+                      f'{n} stored 1m candles of {sym} at clock {store.app.time} ({exp_n} minutes have started)', symbol=sym, fast=fast)
             if n > len(exp_all):
                 v('stored_1m_more_rows_than_input', f'{n} stored 1m rows, input has {len(exp_all)}')
             else:
